@@ -69,6 +69,8 @@ type sysRun struct {
 	FailMut  []int             `json:"failMut,omitempty"`
 	FailInvRead []int          `json:"failInvRead,omitempty"` // n-th LIST of the inventory objects fails
 	FailGet  []jid             `json:"failGet,omitempty"`     // every GET of these objects fails
+	InvAlt   bool              `json:"invAlt,omitempty"`      // the local inventory template is named differently from the other runs' template
+	FailCode int               `json:"failCode,omitempty"`    // HTTP status of the injected faults of this run: 0 = 500, 403, 422 (the library treats them alike)
 	Ctrl     map[string]string `json:"ctrl,omitempty"` // id key -> current | stale | never | failed | failed-current | replaced
 	Del      map[string]string `json:"del,omitempty"`  // id key -> gone | finalizer | finalizer-gone
 	Cancel   string            `json:"cancel,omitempty"`
@@ -85,6 +87,9 @@ type sysIn struct {
 const (
 	sysInvNs   = "ns1"
 	sysInvName = "inv"
+	// a second name for the local inventory template: the library finds the stored inventory object by its id label, whatever
+	// it is called, so a run may come with a template of another name than the object an earlier run created
+	sysInvAltName = "inv-renamed"
 	sysInvID   = "inv-1"
 )
 
@@ -135,7 +140,13 @@ func jidOfKey(k fakecluster.Key) jid {
 	if ki := kindOfResource(k.Group, k.Resource); ki != nil {
 		kind = ki.kind
 	}
-	return jid{k.Namespace, k.Name, k.Group, kind}
+	name := k.Name
+	if k.Resource == "configmaps" && k.Namespace == sysInvNs && name == sysInvAltName {
+		// the inventory object under the other template name: one and the same object for the model, which knows the
+		// inventory by its id label only
+		name = sysInvName
+	}
+	return jid{k.Namespace, name, k.Group, kind}
 }
 
 func manifest(o sysObj) *unstructured.Unstructured {
@@ -433,7 +444,7 @@ func takeSnapshot(c *fakecluster.Cluster) snapshot {
 	sort.Slice(keys, func(i, j int) bool { return keys[i].String() < keys[j].String() })
 	for _, k := range keys {
 		o := snap[k]
-		if k.Resource == "configmaps" && k.Namespace == sysInvNs && k.Name == sysInvName {
+		if k.Resource == "configmaps" && k.Namespace == sysInvNs && (k.Name == sysInvName || k.Name == sysInvAltName) {
 			ids, err := inventory.WrapInventoryObj(o).Load()
 			if err != nil {
 				s.Inv = "unreadable"
@@ -484,6 +495,7 @@ func runOne(c *fakecluster.Cluster, run sysRun) (out runOut) {
 	for _, k := range run.FailMut {
 		c.FailMut[k] = true
 	}
+	c.FailCode = run.FailCode
 	c.FailReq = func(r *fakecluster.Req) bool {
 		if r.Verb == "list" {
 			for _, k := range run.FailInvRead {
@@ -537,9 +549,13 @@ func runOne(c *fakecluster.Cluster, run sysRun) (out runOut) {
 		return
 	}
 	sw := newScriptedWatcher()
+	invTemplateName := sysInvName
+	if run.InvAlt {
+		invTemplateName = sysInvAltName
+	}
 	inv := inventory.WrapInventoryInfoObj(&unstructured.Unstructured{Object: map[string]interface{}{
 		"apiVersion": "v1", "kind": "ConfigMap",
-		"metadata": map[string]interface{}{"name": sysInvName, "namespace": sysInvNs, "labels": map[string]interface{}{common.InventoryLabel: sysInvID}},
+		"metadata": map[string]interface{}{"name": invTemplateName, "namespace": sysInvNs, "labels": map[string]interface{}{common.InventoryLabel: sysInvID}},
 	}})
 
 	ctx, cancel := context.WithCancel(context.Background())
